@@ -46,7 +46,7 @@ def sel_case(draw):
         pool = [a, a + g]
         pred_idx = [a, a + g] + [draw(st.sampled_from(pool)) for _ in range(g - 1)]
         pred_idx = list(draw(st.permutations(pred_idx)))
-    return {"kind": "sel", "dtype": dtype, "ref": ref.tolist(), "pred": pred.tolist(), "ref_idx": ref_idx, "pred_idx": pred_idx}
+    return {"kind": "sel", "layout": draw(st.sampled_from(["C", "C", "F", "neg", "T", "step"])), "dtype": dtype, "ref": ref.tolist(), "pred": pred.tolist(), "ref_idx": ref_idx, "pred_idx": pred_idx}
 
 
 @st.composite
@@ -97,7 +97,8 @@ def _arrays(case):
         r = np.concatenate([np.full(n, a) for a, b, n in case["runs"]])
         p = np.concatenate([np.full(n, b) for a, b, n in case["runs"]])
         return r.astype(case["dtype"]), p.astype(case["dtype"])
-    return np.array(case["ref"]).astype(case["dtype"]), np.array(case["pred"]).astype(case["dtype"])
+    lay = case.get("layout", "C")
+    return gen.with_layout(np.array(case["ref"]).astype(case["dtype"]), lay), gen.with_layout(np.array(case["pred"]).astype(case["dtype"]), lay)
 
 
 def check(case, stats):
